@@ -183,6 +183,15 @@ public:
         return t;
     }
     bool is(kind_t k) const { return k == base || (wrap & verif_wrap_bit(k)) != 0; }
+    /* the outermost kind: the base kind of an unwrapped type, otherwise one of the wrappers that are present (which one
+       is outermost is not part of the flat abstraction: arbitrary) */
+    kind_t get_kind() const
+    {
+        if (wrap == 0) return base;
+        kind_t k;
+        __CPROVER_assume(k >= 0 && k <= Constants::DOUBLE_INV_GUARD && verif_wrap_bit(k) != 0 && (wrap & verif_wrap_bit(k)) != 0);
+        return k;
+    }
     bool unknown() const { return base == Constants::UNKNOWN && wrap == 0; }
     bool is_constant() const { return konst; }
     bool is_mutable() const { return mut; }
